@@ -80,6 +80,9 @@ func (m *Mutex) TryLock() bool {
 //go:norace
 func (m *Mutex) Unlock() {
 	if !m.held {
+		if S != nil && S.poisoned {
+			return // unwinding after the run: a deferred Unlock inside an aborted Cond.Wait
+		}
 		panic("sync: unlock of unlocked mutex")
 	}
 	s := S
